@@ -9,7 +9,7 @@ CLAIMS["C07"] = dict(
          "elements to three parts; the point of each part, of the single histogram of all values, and of the merge of the parts in three association orders must have "
          "bucket i = number of boundaries strictly below v (for integers decided on exact integer arithmetic), sum of buckets = count, exact sum on exactly summable multisets (rounding tolerance otherwise), exact min/max; "
          "merged point == single-histogram point. Seam 2 (c07_hist_meter): the same configurations through MeterProvider + View (View(kHistogram, config), View(kDefault, config), and for the default list no view / "
-         "View(kHistogram, nullptr); the two added forms with multisets of <= 2 (quick) / <= 4 (thorough) values) + UInt64/Double histogram instruments with "
+         "View(kHistogram, nullptr); the two added forms with multisets of <= 2 (quick) / <= 3 (thorough) values) + UInt64/Double histogram instruments with "
          "1-2 harness pull readers (delta, cumulative): every multiset of <= 3 (quick) / <= 4 (thorough) values of a reduced alphabet split in every way over three collection "
          "cycles, every schedule of which reader collects after which cycle; each collected point against the reference histogram of the values that reader is due.",
     note=SEQ_NOTE)
